@@ -222,7 +222,23 @@ def gen_C04(tier, seed):
             p.add(lf, cls, 'OBJ2', **{attr: value_for(CLASSES[cls][2][attr][2], rng, {}, mult=2) or L()})
         p.write(1, valid=False, either=True)
         progs.append(p.build())
+    progs += attr_programs('C04')
     return progs
+
+
+def attr_programs(pid):
+    """All combinations of spec/AttrEncoder.tla (x two attribute classes), replayed on real Attribute objects."""
+    cases = []
+    for kind in ('numeric', 'generic'):
+        for mv in (False, True):
+            for md in ((False, True) if mv else (False,)):
+                for given in ('none', 'scalar', 'empty', 'one', 'two', 'many', 'nested'):
+                    for units in (False, True):
+                        for code in ('explicit', 'inferred'):
+                            cases.append({'kind': kind, 'mv': mv, 'md': md, 'given': given, 'units': units, 'code': code})
+    p = Prog(f'{pid}-attrcombos', {'kind': 'attrcombos'})
+    p.steps.append({'op': 'attr', 'cases': cases})
+    return [p.build()]
 
 
 def gen_C05(tier, seed):
